@@ -88,7 +88,7 @@ theorem maxEp_sub {d a : CTree} (h : CTree.Sub d a) : maxEp d ≤ maxEp a := by
 
 /-- the child lookup of `get_non_membership_proof` -/
 def childEl (c : Cfg) (s : NodeStore) (ep : Nat) (n : TreeNode) (d : Direction) : Except Err AzksElement :=
-  match s.getChild n d ep with
+  match s.getChildForProof n d ep with
   | .error e => .error e
   | .ok none => .ok ⟨c.emptyLabel, c.emptyNodeHash⟩
   | .ok (some ch) =>
@@ -116,16 +116,13 @@ theorem childEl_rep (c : Cfg) (s : NodeStore) (o : Option CTree) (ep : Nat)
   unfold childEl
   cases o with
   | none =>
-    have : s.getChild n d ep = .ok none := by
-      unfold NodeStore.getChild
-      rw [h]; rfl
-    rw [this]
+    rw [getChildForProof_of_label_none (by rw [h]; rfl)]
     rfl
   | some t =>
     obtain ⟨hr, hm⟩ := hrep t rfl
     obtain ⟨nt, h1, h2⟩ := getChild_some c .directory s t ep hr hm n d h
     obtain ⟨u, h3, h4⟩ := getNode_rep c .directory s t ep hr hm
-    rw [h1]
+    rw [getChildForProof_of_getChild_some h1]
     simp only [nodeIs_label h2, h3]
     have := azksValue_nodeIs h4
     simp only [decide_true] at this
